@@ -14,15 +14,25 @@ fn attach(tid: i32) -> bool {
     }
 }
 
-fn one(pid: i32, style: &str, addr: u64, n: usize, oracle: &dyn Fn(u64, usize) -> Vec<u8>) -> Value {
-    let mut rd = match style {
+fn reader(pid: i32, style: &str) -> Result<MemReader, String> {
+    Ok(match style {
         "vmem" => MemReader::for_virtual_mem(pid),
-        "file" => match MemReader::for_file(pid) {
-            Ok(r) => r,
-            Err(e) => return json!({"res":"tool","error":e.to_string()}),
-        },
+        "file" => MemReader::for_file(pid).map_err(|e| e.to_string())?,
+        "auto" => MemReader::new(pid),
         _ => MemReader::for_ptrace(pid),
+    })
+}
+
+fn one(pid: i32, style: &str, addr: u64, n: usize, oracle: &dyn Fn(u64, usize) -> Vec<u8>) -> Value {
+    let mut rd = match reader(pid, style) {
+        Ok(r) => r,
+        Err(e) => return json!({"res":"tool","error":e}),
     };
+    one_with(&mut rd, addr, n, oracle)
+}
+
+/// one read on a reader that may have served reads before (a reader's answer may not depend on its history)
+fn one_with(rd: &mut MemReader, addr: u64, n: usize, oracle: &dyn Fn(u64, usize) -> Vec<u8>) -> Value {
     let r = std::panic::catch_unwind(std::panic::AssertUnwindSafe(|| rd.read_to_vec(addr as usize, std::num::NonZeroUsize::new(n).unwrap())));
     match r {
         Err(_) => json!({"res":"panic","got":0,"prefixOk":false}),
@@ -100,6 +110,32 @@ pub fn run(cases: &[Value], random: usize, seed: u64, workdir: &str, tr: &mut Tr
         ev["n"] = json!(n);
         ev["R"] = json!(big_r);
         tr.emit(ev);
+    }
+    // histories on ONE reader per strategy: reads that succeed, reads that run into the hole and fail, and reads that start exactly
+    // where an earlier one ended or failed - each judged like a single read
+    for style in ["vmem", "file", "ptrace", "auto"] {
+        let Ok(mut rd) = reader(pid, style) else { continue };
+        let mut last_end = start + 64;
+        for k in 0..(random / 3).max(60) {
+            let (s, n) = match k % 6 {
+                0 => (r.below(big_r - 300), r.range(1, 200) as usize),                      // somewhere inside
+                1 => (big_r - r.range(1, 40), r.range(41, 100) as usize),                   // across the end: fails or is cut short
+                2 => (last_end - start, r.range(1, 120) as usize),                          // exactly where the last read ended
+                3 => (big_r - r.range(1, 64), 1 + r.below(8) as usize),                     // in the last words
+                4 => (big_r + r.range(0, 32), 8),                                           // wholly unreadable
+                _ => (last_end - start, 8 * r.range(1, 20) as usize),
+            };
+            if s >= big_r + 64 { continue; }
+            let mut ev = one_with(&mut rd, start + s, n, &oracle);
+            if ev["res"] == "ok" { last_end = start + s + ev["got"].as_u64().unwrap_or(0); }
+            ev["ev"] = json!("mem");
+            ev["origin"] = json!("history");
+            ev["style"] = json!(if style == "auto" { "vmem" } else { style });
+            ev["s"] = json!(s);
+            ev["n"] = json!(n);
+            ev["R"] = json!(big_r);
+            tr.emit(ev);
+        }
     }
     unsafe { libc::ptrace(libc::PTRACE_DETACH, pid, 0, 0) };
 }
